@@ -378,7 +378,113 @@ func rulePermutationInsensitive(c *Ctx) {
 			}
 		}
 		c.Check(bad == "", "R20.4", key, c.P.Pos(fn.Pos()), "slices are used only through len() and whole-slice iteration", bad)
+		// R20.8 the classification does not depend on the iteration order of a map: a loop over a map may be left early only
+		// with a result that does not come from the iteration (an all/any test), and nothing taken from the current entry
+		// survives the loop
+		if why := mapOrderDependence(c, fn); why != "" {
+			c.Bad("R20.8", "input."+fn.Name()+"/no-map-order-dependence", c.P.Pos(fn.Pos()), why)
+		} else {
+			c.OK("R20.8", "input."+fn.Name()+"/no-map-order-dependence", c.P.Pos(fn.Pos()), "no result taken from the entry a map iteration happens to deliver first")
+		}
 	}
+}
+
+// mapOrderDependence: fn returns from inside a loop over a map with a value that is not a constant, or carries a value
+// derived from the current entry out of the loop (first-wins / last-wins over an unordered collection).
+func mapOrderDependence(c *Ctx, fn *ssa.Function) string {
+	for _, b := range fn.Blocks {
+		for _, in := range b.Instrs {
+			nx, ok := in.(*ssa.Next)
+			if !ok || nx.IsString {
+				continue
+			}
+			rg, ok := nx.Iter.(*ssa.Range)
+			if !ok {
+				continue
+			}
+			if _, isMap := rg.X.Type().Underlying().(*types.Map); !isMap {
+				continue
+			}
+			ifi, ok := b.Instrs[len(b.Instrs)-1].(*ssa.If)
+			if !ok {
+				continue
+			}
+			bodyEntry := ifi.Block().Succs[0]
+			inBody := func(x *ssa.BasicBlock) bool { return bodyEntry.Dominates(x) }
+			fromEntry := func(v ssa.Value) bool { return derivedFromValue(v, nx, map[ssa.Value]bool{}) }
+			for _, bb := range fn.Blocks {
+				if !inBody(bb) {
+					// a value of the current entry merged into a variable that outlives the loop
+					for _, pin := range bb.Instrs {
+						phi, isPhi := pin.(*ssa.Phi)
+						if !isPhi {
+							break
+						}
+						if bb == b {
+							continue // the loop header's own phis are judged through their uses
+						}
+						for i, e := range phi.Edges {
+							if inBody(bb.Preds[i]) && fromEntry(e) {
+								return fmt.Sprintf("a value of the current map entry leaves the loop over %s at %s: which entry that is depends on the map's iteration order", rg.X.Type(), c.P.Pos(phi.Pos()))
+							}
+						}
+					}
+					continue
+				}
+				ret, isRet := bb.Instrs[len(bb.Instrs)-1].(*ssa.Return)
+				if !isRet {
+					continue
+				}
+				for _, r := range ret.Results {
+					if _, isK := r.(*ssa.Const); !isK {
+						return fmt.Sprintf("returns %s from inside the loop over a %s at %s: the first matching entry wins and the map's iteration order is random", r.Name(), rg.X.Type(), c.P.Pos(ret.Pos()))
+					}
+				}
+			}
+		}
+	}
+	return ""
+}
+
+func derivedFromValue(v, src ssa.Value, seen map[ssa.Value]bool) bool {
+	if v == nil || seen[v] {
+		return false
+	}
+	seen[v] = true
+	if v == src {
+		return true
+	}
+	switch x := v.(type) {
+	case *ssa.Extract:
+		return derivedFromValue(x.Tuple, src, seen)
+	case *ssa.Phi:
+		for _, e := range x.Edges {
+			if derivedFromValue(e, src, seen) {
+				return true
+			}
+		}
+	case *ssa.UnOp:
+		return derivedFromValue(x.X, src, seen)
+	case *ssa.BinOp:
+		return derivedFromValue(x.X, src, seen) || derivedFromValue(x.Y, src, seen)
+	case *ssa.Convert:
+		return derivedFromValue(x.X, src, seen)
+	case *ssa.ChangeType:
+		return derivedFromValue(x.X, src, seen)
+	case *ssa.Field:
+		return derivedFromValue(x.X, src, seen)
+	case *ssa.Index:
+		return derivedFromValue(x.X, src, seen)
+	case *ssa.Lookup:
+		return derivedFromValue(x.X, src, seen) || derivedFromValue(x.Index, src, seen)
+	case *ssa.Call:
+		for _, a := range x.Call.Args {
+			if derivedFromValue(a, src, seen) {
+				return true
+			}
+		}
+	}
+	return false
 }
 
 func idxEscapes(idx ssa.Value) bool {
